@@ -535,7 +535,7 @@ Section AsML.
                 List.concat (map vflat (fst (vunflat_list ss v))) ++ snd (vunflat_list ss v) = v /\
                 List.length (snd (vunflat_list ss v)) = List.length v - lsum (map struct_size ss)).
       { clear v H. unfold lsum. induction IH as [|s ss' Hs _ IHl]; intros v H; cbn [map fold_right vunflat_list] in H |- *.
-        - repeat split; lia.
+        - cbn [fst snd map List.concat app]. repeat split. lia.
         - destruct (Hs v ltac:(lia)) as (A1 & A2 & A3). destruct (vunflat s v) as [c r1]. cbn [fst snd] in *.
           destruct (IHl r1 ltac:(lia)) as (B1 & B2 & B3). destruct (vunflat_list ss' r1) as [cs r2]. cbn [fst snd] in *.
           cbn [map List.concat]. rewrite A1, B1. repeat split; [|lia].
@@ -590,25 +590,27 @@ Section AsML.
     induction n as [|n IH]; intros a H1 H2; [lia|]. cbn [seq map].
     destruct (Nat.eqb a t) eqn:E.
     - apply Nat.eqb_eq in E. subst a. rewrite Nat.sub_diag. cbn [app AsMatrix.zeros repeat]. f_equal.
-      rewrite ind_above by lia. f_equal. lia.
+      rewrite ind_above by lia. replace (t + S n - S t) with n by lia. reflexivity.
     - apply Nat.eqb_neq in E. rewrite IH by lia.
-      replace (t - a) with (S (t - S a)) by lia. unfold AsMatrix.zeros. cbn [repeat app]. repeat f_equal. lia.
+      replace (t - a) with (S (t - S a)) by lia. replace (S a + n - S t) with (a + S n - S t) by lia. reflexivity.
   Qed.
   Lemma onehot_split n j : j < n -> onehot n j = zeros j ++ k1 :: zeros (n - S j).
   Proof. intros H. unfold AsMatrix.onehot. rewrite ind_split by lia. now rewrite Nat.sub_0_r. Qed.
   Lemma onehot_length n j : List.length (onehot n j) = n.
   Proof. unfold AsMatrix.onehot. now rewrite map_length, seq_length. Qed.
 
+  Lemma zeros_S_r k : zeros (S k) = zeros k ++ [k0].
+  Proof. unfold AsMatrix.zeros. induction k as [|k IH]; [reflexivity|]. cbn [repeat app] in *. now rewrite <- IH. Qed.
   (* zeros k ++ a :: w  =  a * e_k + (zeros (k+1) ++ w) *)
   Lemma vector_step k a w : zeros k ++ a :: w =
     ladd (lscale a (onehot (k + S (List.length w)) k)) (zeros (S k) ++ w).
   Proof.
     rewrite onehot_split by lia. replace (k + S (List.length w) - S k) with (List.length w) by lia.
     rewrite map_app. cbn [map]. rewrite !lscale_zeros.
-    replace (zeros (S k)) with (zeros k ++ [k0]) by (rewrite <- (zeros_app k 1); f_equal; lia).
+    rewrite (zeros_S_r k).
     rewrite <- app_assoc. cbn [app].
     rewrite ladd_app by now rewrite !zeros_length. rewrite ladd_zeros_l by apply zeros_length.
-    f_equal. rewrite ladd_cons. f_equal; [ring|]. apply ladd_zeros_l. reflexivity.
+    f_equal. rewrite ladd_cons. f_equal; [ring|]. symmetry. apply ladd_zeros_l. reflexivity.
   Qed.
 
   (* ================= the generic matrix is the matrix of the application ================= *)
@@ -705,9 +707,583 @@ Section AsML.
       assert (Hx0 : vscale k0 x = x).
       { apply vsh_flat_inj; [apply vsh_vscale|]. now rewrite vflat_vscale, Fx. }
       pose proof (denote_hom' e k0 x) as Hh0. rewrite Hx0, Hy in Hh0. cbn in Hh0. inversion Hh0 as [Hy0].
-      rewrite Hy0 at 1. rewrite vflat_vscale, lscale0. f_equal. exact (Hh _ _ Hx Hy).
+      rewrite vflat_vscale, lscale0. f_equal. exact (Hh _ _ Hx Hy).
     - destruct (lin_extend e cols (out_size e) L N ltac:(unfold in_size in NZ; lia) (vflat x) 0) as (y' & E' & F').
       { cbn. exact (vhas_length _ _ Hx). }
       cbn [AsMatrix.zeros repeat app skipn] in E', F'. rewrite (flat_unflat _ _ Hx), Hy in E'. inversion E'; subst y'. exact F'.
   Qed.
+
+  (* ================= matrix-vector products of the dense constructions ================= *)
+  Notation mat := (mat K).
+  Notation eye := (eye K k0 k1).
+  Notation mscale := (mscale K kmul).
+  Notation madd := (madd K kadd).
+  Notation msum := (msum K kadd).
+  Notation hstack := (hstack K).
+  Notation vstack := (vstack K).
+  Notation block_diag := (block_diag K k0).
+  Definition colsok (m : nat) (cols : list (list K)) : Prop := Forall (fun c => List.length c = m) cols.
+  Definition mwf (M : mat) : Prop := colsok (m_nr M) (m_cols M).
+
+  Lemma mv_length m cols : colsok m cols -> forall v, List.length (matvec_cols m cols v) = m.
+  Proof.
+    induction 1 as [|c cs Hc _ IH]; intros v; [destruct v; apply zeros_length|].
+    destruct v as [|a v]; [apply zeros_length|]. cbn [AsMatrix.matvec_cols].
+    rewrite ladd_length_eq; [apply IH|]. now rewrite map_length, Hc, IH.
+  Qed.
+  Lemma mv_nil_v m cols : matvec_cols m cols [] = zeros m.
+  Proof. destruct cols; reflexivity. Qed.
+  Lemma mv_app m c1 : forall v1 c2 v2, List.length c1 = List.length v1 -> colsok m c1 -> colsok m c2 ->
+    matvec_cols m (c1 ++ c2) (v1 ++ v2) = ladd (matvec_cols m c1 v1) (matvec_cols m c2 v2).
+  Proof.
+    induction c1 as [|c cs IH]; intros [|a v1] c2 v2 HL H1 H2; cbn in HL; try discriminate.
+    - cbn [app AsMatrix.matvec_cols]. symmetry. apply ladd_zeros_l. now apply mv_length.
+    - inversion H1; subst. cbn [app AsMatrix.matvec_cols]. rewrite IH by (auto; lia). now rewrite ladd_assoc.
+  Qed.
+  Lemma mv_eye_gen n : forall w k, k + List.length w = n ->
+    matvec_cols n (map (onehot n) (seq k (List.length w))) w = zeros k ++ w.
+  Proof.
+    induction w as [|a w IH]; intros k Hk; cbn [List.length] in *.
+    - cbn. rewrite app_nil_r. f_equal. lia.
+    - cbn [seq map AsMatrix.matvec_cols]. rewrite IH by lia. rewrite vector_step. f_equal. f_equal. f_equal. lia.
+  Qed.
+  Lemma mv_eye n v : List.length v = n -> matvec (eye n) v = v.
+  Proof. intros H. unfold AsMatrix.matvec, AsMatrix.eye. cbn [m_nr m_cols]. subst n. exact (mv_eye_gen _ v 0 eq_refl). Qed.
+  Lemma mv_scale m k cols : forall v, matvec_cols m (map (fun c => lscale k c) cols) v = lscale k (matvec_cols m cols v).
+  Proof.
+    induction cols as [|c cs IH]; intros [|a v]; cbn [map AsMatrix.matvec_cols]; try (now rewrite lscale_zeros).
+    rewrite IH, lscale_ladd, !lscale_lscale. f_equal. apply map_ext. intros; ring.
+  Qed.
+  Lemma mv_add m c1 : forall c2 v, List.length c1 = List.length c2 -> colsok m c1 -> colsok m c2 ->
+    matvec_cols m (map (fun p => ladd (fst p) (snd p)) (combine c1 c2)) v = ladd (matvec_cols m c1 v) (matvec_cols m c2 v).
+  Proof.
+    induction c1 as [|a c1 IH]; intros [|b c2] v HL H1 H2; cbn in HL; try discriminate.
+    - cbn. rewrite !mv_nil_v || destruct v; cbn; symmetry; apply ladd_zeros_l, zeros_length.
+    - inversion H1; inversion H2; subst. destruct v as [|x v]; cbn [combine map fst snd AsMatrix.matvec_cols].
+      + symmetry; apply ladd_zeros_l, zeros_length.
+      + rewrite IH by (auto; lia). rewrite lscale_ladd. apply ladd_interchange.
+  Qed.
+  Lemma mv_pad_r mA mR cols : colsok mA cols -> forall v,
+    matvec_cols (mA + mR) (map (fun c => c ++ zeros mR) cols) v = matvec_cols mA cols v ++ zeros mR.
+  Proof.
+    induction 1 as [|c cs Hc Hcs IH]; intros v; [destruct v; cbn; apply zeros_app|].
+    destruct v as [|a v]; [cbn; apply zeros_app|]. cbn [map AsMatrix.matvec_cols]. rewrite IH, map_app, lscale_zeros.
+    rewrite ladd_app by (rewrite map_length, Hc; symmetry; now apply mv_length).
+    f_equal. apply ladd_zeros_l, zeros_length.
+  Qed.
+  Lemma mv_pad_l mA mR cols : colsok mR cols -> forall v,
+    matvec_cols (mA + mR) (map (fun c => zeros mA ++ c) cols) v = zeros mA ++ matvec_cols mR cols v.
+  Proof.
+    induction 1 as [|c cs Hc Hcs IH]; intros v; [destruct v; cbn; apply zeros_app|].
+    destruct v as [|a v]; [cbn; apply zeros_app|]. cbn [map AsMatrix.matvec_cols]. rewrite IH, map_app, lscale_zeros.
+    rewrite ladd_app by now rewrite !zeros_length.
+    f_equal. apply ladd_zeros_l, zeros_length.
+  Qed.
+  Lemma mv_vstack2 mA mB cA : forall cB v, List.length cA = List.length cB -> colsok mA cA -> colsok mB cB ->
+    matvec_cols (mA + mB) (map (fun p => fst p ++ snd p) (combine cA cB)) v = matvec_cols mA cA v ++ matvec_cols mB cB v.
+  Proof.
+    induction cA as [|a cA IH]; intros [|b cB] v HL H1 H2; cbn in HL; try discriminate.
+    - destruct v; cbn; apply zeros_app.
+    - inversion H1; inversion H2; subst. destruct v as [|x v]; cbn [combine map fst snd AsMatrix.matvec_cols]; [apply zeros_app|].
+      rewrite IH by (auto; lia). rewrite map_app.
+      rewrite ladd_app; [reflexivity|]. rewrite map_length. symmetry. rewrite mv_length by assumption. congruence.
+  Qed.
+  Lemma mv_zeros_v m cols : colsok m cols -> forall n, matvec_cols m cols (zeros n) = zeros m.
+  Proof.
+    induction 1 as [|c cs Hc _ IH]; intros [|n]; try reflexivity. cbn [AsMatrix.zeros repeat AsMatrix.matvec_cols].
+    fold (zeros n). rewrite IH, lscale0, Hc. apply ladd_zeros_l, zeros_length.
+  Qed.
+  (* a matrix is determined by its products with the basis vectors *)
+  Lemma mv_onehot m cols : colsok m cols -> forall j, j < List.length cols ->
+    matvec_cols m cols (onehot (List.length cols) j) = nth j cols [].
+  Proof.
+    intros H j Hj. rewrite onehot_split by exact Hj.
+    rewrite <- (firstn_skipn j cols) at 1.
+    assert (L1 : List.length (firstn j cols) = j) by (rewrite firstn_length; lia).
+    assert (C12 : colsok m (firstn j cols) /\ colsok m (skipn j cols)).
+    { apply Forall_app. unfold colsok in H. now rewrite firstn_skipn. }
+    destruct C12 as [C1 C2].
+    rewrite mv_app; [|now rewrite zeros_length|exact C1|exact C2].
+    rewrite (skipn_nth_cons _ [] cols j Hj) in *. cbn [AsMatrix.matvec_cols].
+    inversion C2 as [|? ? Hc Hr]; subst.
+    rewrite (mv_zeros_v _ _ C1), (mv_zeros_v _ _ Hr). rewrite ladd_zeros_l by (rewrite ladd_length_eq; now rewrite ?map_length, ?zeros_length).
+    rewrite ladd_zeros_r by now rewrite map_length. rewrite <- (lscale1 (nth j cols [])) at 2. apply map_ext. intros; ring.
+  Qed.
+  Lemma mat_ext (A B : mat) : mwf A -> mwf B -> m_nr A = m_nr B -> List.length (m_cols A) = List.length (m_cols B) ->
+    (forall v, List.length v = List.length (m_cols A) -> matvec A v = matvec B v) -> A = B.
+  Proof.
+    destruct A as [ma ca], B as [mb cb]. unfold mwf, AsMatrix.matvec. cbn [m_nr m_cols]. intros HA HB -> HL Hv. f_equal.
+    apply (nth_ext _ _ [] []); [exact HL|]. intros j Hj.
+    rewrite <- (mv_onehot mb ca HA j Hj), (Hv _ (onehot_length _ _)), HL. apply mv_onehot; [exact HB|lia].
+  Qed.
+
+  (* ================= an override that acts like the operator IS the generic matrix ================= *)
+  (* M represents e: an (out_size x in_size) array whose product with the flattened input is the
+     flattened output *)
+  Definition repr (e : op) (M : mat) : Prop :=
+    mwf M /\ m_nr M = out_size e /\ List.length (m_cols M) = in_size e /\
+    forall x y, vhas x (in_struct e) = true -> denote e x = Some y -> vflat y = matvec M (vflat x).
+
+  Lemma repr_to_columns e M cols : repr e M -> honest e -> generic_columns e = Some cols ->
+    M = mkMat (out_size e) cols.
+  Proof.
+    intros (W & Hr & Hc & Hmv) Hh Hg. destruct (generic_columns_spec e cols Hh Hg) as [L N].
+    assert (W' : mwf (mkMat (out_size e) cols)).
+    { unfold mwf, colsok. cbn [m_nr m_cols]. apply (Forall_nth _ cols). intros j d Hj. rewrite L in Hj.
+      destruct (N j Hj) as (y & _ & Ny & Ly). rewrite (nth_indep cols d [] ) by (rewrite L; exact Hj). now rewrite Ny. }
+    apply mat_ext; auto; cbn [m_nr m_cols]; [congruence|].
+    intros v Hv. rewrite Hc in Hv.
+    destruct (Nat.eq_dec (in_size e) 0) as [Z|NZ].
+    - rewrite Z in Hv. destruct v; [|discriminate]. unfold AsMatrix.matvec. cbn [m_nr m_cols]. rewrite !mv_nil_v. now rewrite Hr.
+    - destruct (lin_extend e cols (out_size e) L N ltac:(unfold in_size in NZ; lia) v 0 Hv) as (y & E & F).
+      cbn [AsMatrix.zeros repeat app skipn] in E, F.
+      assert (Hx : vhas (unflat (in_struct e) v) (in_struct e) = true) by now apply unflat_vhas.
+      rewrite <- (unflat_flat (in_struct e) v Hv) at 1 2.
+      rewrite <- (Hmv _ _ Hx E). rewrite (columns_matvec e cols Hh Hg _ _ Hx E). reflexivity.
+  Qed.
+
+  Lemma eye_wf n : mwf (eye n).
+  Proof. unfold mwf, colsok, AsMatrix.eye. cbn [m_nr m_cols]. apply Forall_forall. intros c Hc.
+    apply in_map_iff in Hc as (j & <- & _). apply onehot_length. Qed.
+  Lemma ident_structs i s : in_struct (Ident i s : op) = s /\ out_struct (Ident i s : op) = s.
+  Proof. split; reflexivity. Qed.
+
+  Lemma repr_ident i s : repr (Ident i s) (eye (in_size (Ident i s : op))).
+  Proof.
+    unfold repr. cbn [m_nr m_cols AsMatrix.eye]. rewrite map_length, seq_length.
+    split; [apply eye_wf|]. split; [reflexivity|]. split; [reflexivity|].
+    intros x y Hx Hy. cbn [Denote.denote] in Hy. inversion Hy; subst y.
+    symmetry. apply mv_eye. exact (vhas_length _ _ Hx).
+  Qed.
+  Lemma repr_homoth i k s : repr (Homoth i k s) (mscale k (eye (in_size (Homoth i k s : op)))).
+  Proof.
+    unfold repr, AsMatrix.mscale. cbn [m_nr m_cols AsMatrix.eye]. rewrite !map_length, seq_length.
+    split.
+    { unfold mwf, colsok. cbn [m_nr m_cols]. apply Forall_forall. intros c Hc.
+      apply in_map_iff in Hc as (c' & <- & Hc'). apply in_map_iff in Hc' as (j & <- & _). rewrite map_length. apply onehot_length. }
+    split; [reflexivity|]. split; [reflexivity|].
+    intros x y Hx Hy. cbn [Denote.denote] in Hy. inversion Hy; subst y.
+    rewrite vflat_vscale. unfold AsMatrix.matvec. cbn [m_nr m_cols]. rewrite mv_scale. f_equal.
+    symmetry. apply (mv_eye _ (vflat x)). exact (vhas_length _ _ Hx).
+  Qed.
+  Lemma honest_ident i s : honest (Ident i s).
+  Proof. intros x y Hx Hy. cbn [Denote.denote] in Hy. inversion Hy; subst. exact (vhas_length _ _ Hx). Qed.
+  Lemma honest_homoth i k s : honest (Homoth i k s).
+  Proof.
+    intros x y Hx Hy. cbn [Denote.denote] in Hy. inversion Hy; subst. rewrite vflat_vscale, map_length.
+    exact (vhas_length _ _ Hx).
+  Qed.
+
+  (* override_eq_generic for IdentityOperator and HomothetyOperator (any pytree structure) *)
+  Theorem override_ident_homoth (leaf_override : op -> option mat) (minv : mat -> option mat) e M cols :
+    (exists i s, e = Ident i s) \/ (exists i k s, e = Homoth i k s) ->
+    as_matrix K k0 k1 kadd kmul leafsem leaf_override minv e = Some M ->
+    generic_columns e = Some cols -> M = mkMat (out_size e) cols.
+  Proof.
+    intros [(i & s & ->)|(i & k & s & ->)] HM Hg; cbn [AsMatrix.as_matrix] in HM; inversion HM; subst M.
+    - apply repr_to_columns; [apply repr_ident|apply honest_ident|exact Hg].
+    - apply repr_to_columns; [apply repr_homoth|apply honest_homoth|exact Hg].
+  Qed.
+
+  (* ================= every override represents its operator ================= *)
+  Section Override.
+    Variable leaf_override : op -> option mat.
+    Variable minv : mat -> option mat.
+    Notation as_matrix := (as_matrix K k0 k1 kadd kmul leafsem leaf_override minv).
+    Notation as_matrix_generic := (as_matrix_generic K k0 k1 kadd kmul leafsem).
+    Notation wfo := (@wfo K).
+
+    (* the transcribed fori_loop builds the matrix of columns (checked by the correspondence) *)
+    Hypothesis LOOP : forall e, as_matrix_generic e = option_map (mkMat (out_size e)) (generic_columns e).
+    (* C05: what a well-formed operator returns has its declared output size *)
+    Hypothesis HON : forall e, wfo e = true -> honest e.
+    (* leaf-level overrides: DiagonalOperator / Toeplitz / DiagonalInverse (C11, C09), ravel/reshape = eye *)
+    Hypothesis HOV : forall e M, leaf_override e = Some M -> repr e M.
+    Hypothesis HRESH : forall i c si so p, c = CRavel \/ c = CReshape ->
+      repr (Prim i c si so p) (eye (in_size (Prim i c si so p : op))).
+    (* jnp.linalg.inv returned a left inverse *)
+    Hypothesis HINV : forall M N, minv M = Some N ->
+      mwf N /\ m_nr N = List.length (m_cols M) /\ List.length (m_cols N) = m_nr M /\
+      forall w, List.length w = List.length (m_cols M) -> matvec N (matvec M w) = w.
+    (* a lazy inverse returns a solution of the system of its operand, in the operand's input structure *)
+    Hypothesis HSOLVE : forall i w e z y1, w = WInverse \/ w = WQURotT ->
+      vhas z (out_struct e) = true -> leafsem (Wrap i w e) z = Some y1 ->
+      denote e y1 = Some z /\ vhas y1 (in_struct e) = true.
+
+    Lemma as_matrix_add i l : as_matrix (AddOp i l) = obind (omapl as_matrix l) msum.
+    Proof. cbn [AsMatrix.as_matrix]. f_equal. induction l as [|e r IH]; cbn; [reflexivity|]. now rewrite IH. Qed.
+    Lemma as_matrix_block i b td l : as_matrix (Block i b td l) =
+      obind (omapl as_matrix l) (fun ms => match b with BRow => hstack ms | BDiag => Some (block_diag ms) | BCol => vstack ms end).
+    Proof. cbn [AsMatrix.as_matrix]. f_equal. induction l as [|e r IH]; cbn; [reflexivity|]. now rewrite IH. Qed.
+
+    Lemma repr_generic e M : wfo e = true -> as_matrix_generic e = Some M -> repr e M.
+    Proof.
+      intros W H. rewrite LOOP in H. destruct (generic_columns e) as [cols|] eqn:Hg; [|discriminate].
+      cbn in H. inversion H; subst M. clear H. pose proof (HON e W) as Hh.
+      destruct (generic_columns_spec e cols Hh Hg) as [L N].
+      split.
+      { unfold mwf, colsok. cbn [m_nr m_cols]. apply (Forall_nth _ cols). intros j d Hj. rewrite L in Hj.
+        destruct (N j Hj) as (y & _ & Ny & Ly). rewrite (nth_indep cols d []) by (rewrite L; exact Hj). now rewrite Ny. }
+      split; [reflexivity|]. split; [exact L|]. now apply columns_matvec.
+    Qed.
+
+    Fixpoint allwf (l : list op) : bool := match l with [] => true | x :: xs => wfo x && allwf xs end.
+    Lemma allwf_Forall l : allwf l = true -> Forall (fun e => wfo e = true) l.
+    Proof. induction l as [|e r IH]; cbn; [constructor|]. intros H. apply andb_true_iff in H as [H1 H2]. constructor; auto. Qed.
+    Lemma all_eqb_Forall s r : all_eqb (s :: r) = true -> Forall (fun t => t = s) r.
+    Proof.
+      cbn. induction r as [|t r IH]; cbn; [constructor|]. intros H. apply andb_true_iff in H as [H1 H2].
+      constructor; [symmetry; now apply struct_eqb_eq|auto].
+    Qed.
+    Lemma omapl_Forall2 (P : op -> mat -> Prop) l : forall Ms,
+      Forall (fun e => forall M, as_matrix e = Some M -> P e M) l -> omapl as_matrix l = Some Ms -> Forall2 P l Ms.
+    Proof.
+      induction l as [|e r IH]; intros Ms HF H; cbn in H.
+      - inversion H; constructor.
+      - destruct (as_matrix e) as [M|] eqn:E; [|discriminate]. destruct (omapl as_matrix r) as [Mr|]; [|discriminate].
+        inversion H; subst Ms. inversion HF; subst. constructor; auto.
+    Qed.
+
+    (* ---- sums ---- *)
+    Definition dims (m n : nat) (M : mat) : Prop := mwf M /\ m_nr M = m /\ List.length (m_cols M) = n.
+    Lemma madd_spec m n A B : dims m n A -> dims m n B ->
+      exists C, madd A B = Some C /\ dims m n C /\ forall v, matvec C v = ladd (matvec A v) (matvec B v).
+    Proof.
+      intros (WA & RA & CA) (WB & RB & CB). unfold AsMatrix.madd, AsMatrix.m_nc. rewrite RA, RB, CA, CB, !Nat.eqb_refl. cbn [andb].
+      eexists. split; [reflexivity|]. split.
+      - split; [|split]; cbn [m_nr m_cols].
+        + unfold mwf, colsok in *. cbn [m_nr m_cols]. rewrite RA in WA. rewrite RB in WB.
+          clear CA CB. revert WB. generalize (m_cols B). induction WA as [|a ca Ha _ IH]; intros cb WB; [constructor|].
+          destruct cb as [|b cb]; [constructor|]. inversion WB; subst. cbn [combine map fst snd]. constructor; [|now apply IH].
+          rewrite ladd_length_eq; congruence.
+        + reflexivity.
+        + rewrite map_length, combine_length, CA, CB. apply Nat.min_id.
+      - intros v. unfold AsMatrix.matvec. cbn [m_nr m_cols]. rewrite RA, RB. apply mv_add; [congruence|unfold mwf in *; congruence ..].
+    Qed.
+    Lemma msum_fold_spec m n r : forall A M, dims m n A -> Forall (dims m n) r ->
+      fold_left (fun acc x => obind acc (fun a => madd a x)) r (Some A) = Some M ->
+      dims m n M /\ forall v, matvec M v = fold_left ladd (map (fun X => matvec X v) r) (matvec A v).
+    Proof.
+      induction r as [|B r IH]; intros A M DA DR H; cbn in H.
+      - inversion H; subst. split; [exact DA|reflexivity].
+      - inversion DR as [|? ? DB DR']; subst. destruct (madd_spec m n A B DA DB) as (C & EC & DC & HC).
+        rewrite EC in H. cbn [obind] in H. destruct (IH C M DC DR' H) as (DM & HM). split; [exact DM|].
+        intros v. cbn [map fold_left]. rewrite HM, HC. reflexivity.
+    Qed.
+
+    Lemma repr_sum i l Ms M : wfo (AddOp i l) = true -> Forall2 repr l Ms -> msum Ms = Some M -> repr (AddOp i l) M.
+    Proof.
+      intros W HF HM. change (wfo (AddOp i l)) with (negb (Nat.eqb (List.length l) 0) && sum_ok l && allwf l) in W.
+      apply andb_true_iff in W as [W W3]. apply andb_true_iff in W as [W1 W2].
+      unfold sum_ok in W2. apply andb_true_iff in W2 as [Win Wout].
+      destruct l as [|e0 l]; [discriminate|]. inversion HF as [|? M0 ? Mr R0 Rr]; subst.
+      cbn [map] in Win, Wout. apply all_eqb_Forall in Win. apply all_eqb_Forall in Wout.
+      set (m := out_size e0). set (n := in_size e0).
+      assert (D0 : dims m n M0) by (destruct R0 as (A & B & C & _); repeat split; assumption).
+      assert (DR : Forall (dims m n) Mr).
+      { clear - Rr Win Wout. revert Win Wout. induction Rr as [|e M1 l Mr R1 _ IH]; intros Win Wout; [constructor|].
+        cbn [map] in Win, Wout. inversion Win; inversion Wout; subst. constructor; [|now apply IH].
+        destruct R1 as (A & B & C & _). unfold dims, m, n, out_size, in_size. repeat split; try assumption; [now rewrite B; unfold out_size; f_equal|now rewrite C; unfold in_size; f_equal]. }
+      cbn [AsMatrix.msum] in HM. destruct (msum_fold_spec m n Mr M0 M D0 DR HM) as ((WM & RM & CM) & HMv).
+      split; [exact WM|]. split; [exact RM|]. split; [exact CM|].
+      intros x y Hx Hy. rewrite denote_add in Hy.
+      destruct (omapl (fun e => denote e x) (e0 :: l)) as [ys|] eqn:Eys; [|discriminate]. cbn [obind] in Hy.
+      cbn [omapl] in Eys. destruct (denote e0 x) as [y0|] eqn:E0; [|discriminate].
+      destruct (omapl (fun e => denote e x) l) as [yr|] eqn:Er; [|discriminate]. inversion Eys; subst ys.
+      cbn [Denote.vsum] in Hy. destruct (fold_acc_spec _ _ _ Hy) as (_ & _ & Fy). rewrite Fy, HMv.
+      change (in_struct (AddOp i (e0 :: l))) with (in_struct e0) in Hx.
+      destruct R0 as (_ & _ & _ & R0v). rewrite (R0v _ _ Hx E0). f_equal.
+      clear - Rr Win Er Hx. revert yr Er Win. induction Rr as [|e M1 l Mr R1 _ IH]; intros yr Er Win; cbn in Er.
+      - inversion Er; reflexivity.
+      - destruct (denote e x) as [y1|] eqn:E1; [|discriminate]. destruct (omapl (fun e => denote e x) l) as [yr'|] eqn:Er'; [|discriminate].
+        inversion Er; subst yr. cbn [map] in Win |- *. inversion Win as [|? ? Hin Win']; subst.
+        destruct R1 as (_ & _ & _ & R1v). rewrite (R1v x y1); [|now rewrite Hin|exact E1]. f_equal. now apply IH.
+    Qed.
+
+    (* ---- containers of blocks ---- *)
+    Lemma split_flatten (A : Type) td : forall (x : pt A) xs, split_prefix td x = Some xs -> flatten x = flat_map flatten xs.
+    Proof.
+      induction td as [u|k cs IH] using pt_ind'; intros x xs H.
+      - cbn in H. inversion H; subst. cbn. now rewrite app_nil_r.
+      - cbn [split_prefix] in H. destruct x as [a|k' xs0]; [discriminate|].
+        destruct (ckind_eqb k k'); [|discriminate]. cbn [flatten].
+        revert xs0 xs H. induction IH as [|c cs' Hc _ IHl]; intros xs0 xs H.
+        + destruct xs0; [|discriminate]. cbn in H. inversion H; reflexivity.
+        + destruct xs0 as [|x0 xs1]; [discriminate|]. cbn [split_list] in H.
+          destruct (split_prefix c x0) as [a|] eqn:Ea; [|discriminate].
+          destruct (split_list (@split_prefix A) cs' xs1) as [b|] eqn:Eb; [|discriminate].
+          inversion H; subst xs. cbn [flat_map]. rewrite flat_map_app.
+          now rewrite (Hc _ _ Ea), (IHl _ _ Eb).
+    Qed.
+    Lemma struct_size_build (d : struct) td ss : List.length ss = nleaves td ->
+      struct_size (build d td ss) = lsum (map struct_size ss).
+    Proof.
+      intros H. unfold struct_size. rewrite (split_flatten _ td _ ss (split_build d td ss H)).
+      clear. induction ss as [|s ss IH]; [reflexivity|]. cbn [flat_map map]. rewrite map_app.
+      fold (lsum (map leaf_size (flatten s) ++ map leaf_size (flat_map flatten ss))). rewrite lsum_app.
+      unfold lsum in *. cbn [fold_right]. now rewrite IH.
+    Qed.
+    Lemma vhas_split (d : struct) td ss x : List.length ss = nleaves td -> vhas x (build d td ss) = true ->
+      exists xs, split_prefix td x = Some xs /\ Forall2 (fun x s => vhas x s = true) xs ss.
+    Proof.
+      intros L H. apply vhas_vsh in H. rewrite <- build_pmap in H.
+      pose proof (split_vsh td x) as P. rewrite H in P.
+      rewrite (split_build (shp d) td (map shp ss)) in P by now rewrite map_length.
+      destruct (split_prefix td x) as [xs|]; [|discriminate]. cbn in P. inversion P as [P'].
+      exists xs. split; [reflexivity|]. clear - P'. revert ss P'.
+      induction xs as [|a xs IH]; intros [|s ss] P'; cbn in P'; try discriminate; constructor.
+      - inversion P'. now apply vhas_vsh.
+      - inversion P'. now apply IH.
+    Qed.
+
+    Lemma block_diag_spec l Ms : Forall2 repr l Ms ->
+      dims (lsum (map (@out_size K) l)) (lsum (map (@in_size K) l)) (block_diag Ms) /\
+      forall xs ys, Forall2 (fun x e => vhas x (in_struct e) = true) xs l -> omap2 denote l xs = Some ys ->
+        List.concat (map vflat ys) = matvec (block_diag Ms) (List.concat (map vflat xs)).
+    Proof.
+      induction 1 as [|e M l Mr (WM & RM & CM & HM) _ IH].
+      - split; [repeat split; constructor|]. intros xs ys Hx Hy. inversion Hx; subst. cbn in Hy. inversion Hy; subst. reflexivity.
+      - destruct IH as ((WR & RR & CR) & HR). cbn [AsMatrix.block_diag map]. set (R := block_diag Mr) in *.
+        assert (CA : colsok (m_nr M + m_nr R) (map (fun c => c ++ zeros (m_nr R)) (m_cols M))).
+        { apply Forall_forall. intros c Hc. apply in_map_iff in Hc as (c' & <- & Hc'). rewrite app_length, zeros_length.
+          unfold mwf, colsok in WM. rewrite Forall_forall in WM. now rewrite (WM _ Hc'). }
+        assert (CB : colsok (m_nr M + m_nr R) (map (fun c => zeros (m_nr M) ++ c) (m_cols R))).
+        { apply Forall_forall. intros c Hc. apply in_map_iff in Hc as (c' & <- & Hc'). rewrite app_length, zeros_length.
+          unfold mwf, colsok in WR. rewrite Forall_forall in WR. now rewrite (WR _ Hc'). }
+        split.
+        + split; [|split]; cbn [m_nr m_cols].
+          * apply Forall_app. split; assumption.
+          * unfold lsum in *. cbn [fold_right]. congruence.
+          * rewrite app_length, !map_length. unfold lsum in *. cbn [fold_right]. congruence.
+        + intros xs ys Hx Hy. inversion Hx as [|x0 ? xr ? Hx0 Hxr]; subst. cbn [omap2] in Hy.
+          destruct (denote e x0) as [y0|] eqn:E0; [|discriminate]. destruct (omap2 denote l xr) as [yr|] eqn:Er; [|discriminate].
+          inversion Hy; subst ys. cbn [map List.concat]. unfold AsMatrix.matvec. cbn [m_nr m_cols].
+          rewrite mv_app; [|rewrite map_length, CM; symmetry; exact (vhas_length _ _ Hx0)|exact CA|exact CB].
+          rewrite mv_pad_r by exact WM. rewrite mv_pad_l by exact WR.
+          rewrite ladd_app by (rewrite zeros_length; now apply mv_length).
+          rewrite ladd_zeros_r by now apply mv_length. rewrite ladd_zeros_l by now apply mv_length.
+          rewrite (HM _ _ Hx0 E0). f_equal. exact (HR _ _ Hxr Er).
+    Qed.
+
+    Lemma vstack_spec n l Ms : Forall2 repr l Ms -> l <> [] -> Forall (fun e => in_size e = n) l ->
+      exists M, vstack Ms = Some M /\ dims (lsum (map (@out_size K) l)) n M /\
+        forall v, matvec M v = List.concat (map (fun X => matvec X v) Ms).
+    Proof.
+      induction 1 as [|e M0 l Mr (W0 & R0 & C0 & _) HF IH]; intros Hne Hn; [congruence|].
+      inversion Hn as [|? ? Hn0 Hnr]; subst. destruct l as [|e1 l].
+      - inversion HF; subst. exists M0. split; [reflexivity|]. split.
+        + repeat split; [exact W0|unfold lsum; cbn; lia|congruence].
+        + intros v. cbn. now rewrite app_nil_r.
+      - destruct (IH ltac:(discriminate) Hnr) as (R & ER & (WR & RR & CR) & HR).
+        inversion HF as [|? M1 ? Mr' ? ?]; subst. cbn [AsMatrix.vstack]. cbn [AsMatrix.vstack] in ER. rewrite ER. cbn [obind].
+        unfold AsMatrix.m_nc. rewrite C0, CR, Nat.eqb_refl. eexists. split; [reflexivity|]. split.
+        + split; [|split]; cbn [m_nr m_cols].
+          * unfold mwf, colsok in *. cbn [m_nr m_cols]. clear - W0 WR.
+            revert WR. generalize (m_cols R). induction W0 as [|a ca Ha _ IHa]; intros cb WB; [constructor|].
+            destruct cb as [|b cb]; [constructor|]. inversion WB; subst. cbn [combine map fst snd]. constructor; [|now apply IHa].
+            rewrite app_length. congruence.
+          * unfold lsum in *. cbn [map fold_right] in *. lia.
+          * rewrite map_length, combine_length, C0, CR. apply Nat.min_id.
+        + intros v. unfold AsMatrix.matvec at 1. cbn [m_nr m_cols]. rewrite mv_vstack2 by (try assumption; congruence).
+          cbn [map List.concat]. f_equal. exact (HR v).
+    Qed.
+
+    Definition hsum (m : nat) (ws : list (list K)) : list K := fold_right ladd (zeros m) ws.
+    Lemma fold_left_hsum m ws : Forall (fun w => List.length w = m) ws -> forall a, List.length a = m ->
+      fold_left ladd ws a = ladd a (hsum m ws).
+    Proof.
+      induction 1 as [|w ws Hw _ IH]; intros a Ha; cbn [fold_left hsum fold_right].
+      - symmetry. now apply ladd_zeros_r.
+      - rewrite IH by (rewrite ladd_length_eq; congruence). apply ladd_assoc.
+    Qed.
+    Lemma hstack_spec m l Ms : Forall2 repr l Ms -> l <> [] -> Forall (fun e => out_size e = m) l ->
+      exists M, hstack Ms = Some M /\ dims m (lsum (map (@in_size K) l)) M /\
+        forall vs, Forall2 (fun v e => List.length v = in_size e) vs l ->
+          matvec M (List.concat vs) = hsum m (map (fun p => matvec (fst p) (snd p)) (combine Ms vs)).
+    Proof.
+      induction 1 as [|e M0 l Mr (W0 & R0 & C0 & _) HF IH]; intros Hne Hm; [congruence|].
+      pose proof (Forall_inv Hm) as Hm0. pose proof (Forall_inv_tail Hm) as Hmr. cbn beta in Hm0. destruct l as [|e1 l].
+      - inversion HF; subst. exists M0. split; [reflexivity|]. split.
+        + repeat split; [exact W0|congruence|unfold lsum; cbn; lia].
+        + intros vs Hvs. inversion Hvs as [|v0 ? vr ? L0 Lr]; subst. inversion Lr; subst.
+          cbn [List.concat combine map fst snd hsum fold_right]. rewrite app_nil_r.
+          symmetry. apply ladd_zeros_r. unfold AsMatrix.matvec. rewrite mv_length by exact W0. congruence.
+      - destruct (IH ltac:(discriminate) Hmr) as (R & ER & (WR & RR & CR) & HR).
+        inversion HF as [|? M1 ? Mr' ? ?]; subst. cbn [AsMatrix.hstack]. cbn [AsMatrix.hstack] in ER. rewrite ER. cbn [obind].
+        rewrite R0, RR, Nat.eqb_refl. eexists. split; [reflexivity|]. split.
+        + split; [|split]; cbn [m_nr m_cols].
+          * apply Forall_app. unfold mwf, colsok in *. rewrite R0 in W0. rewrite RR in WR. split; assumption.
+          * reflexivity.
+          * rewrite app_length, C0, CR. unfold lsum. reflexivity.
+        + intros vs Hvs. inversion Hvs as [|v0 ? vr ? L0 Lr]; subst.
+          cbn [List.concat combine map fst snd hsum fold_right]. unfold AsMatrix.matvec at 1. cbn [m_nr m_cols].
+          unfold mwf, colsok in *. rewrite R0 in W0. rewrite RR in WR.
+          rewrite mv_app by (try assumption; congruence).
+          f_equal; [unfold AsMatrix.matvec; now rewrite R0|].
+          pose proof (HR vr Lr) as HRv. unfold AsMatrix.matvec in HRv at 1. rewrite RR in HRv. exact HRv.
+    Qed.
+
+    Lemma omapl_repr l Ms x : Forall2 repr l Ms -> Forall (fun e => vhas x (in_struct e) = true) l ->
+      forall ys, omapl (fun e => denote e x) l = Some ys -> map vflat ys = map (fun X => matvec X (vflat x)) Ms.
+    Proof.
+      induction 1 as [|e M l Mr (_ & _ & _ & HM) _ IH]; intros Hx ys Hy; cbn in Hy.
+      - inversion Hy; reflexivity.
+      - inversion Hx; subst. destruct (denote e x) as [y0|] eqn:E0; [|discriminate].
+        destruct (omapl (fun e => denote e x) l) as [yr|] eqn:Er; [|discriminate]. inversion Hy; subst ys.
+        cbn [map]. f_equal; [now apply HM|now apply IH].
+    Qed.
+    Lemma omap2_repr l Ms : Forall2 repr l Ms -> forall xs ys, Forall2 (fun x e => vhas x (in_struct e) = true) xs l ->
+      omap2 denote l xs = Some ys ->
+      map vflat ys = map (fun p => matvec (fst p) (snd p)) (combine Ms (map vflat xs)).
+    Proof.
+      induction 1 as [|e M l Mr (_ & _ & _ & HM) _ IH]; intros xs ys Hx Hy.
+      - inversion Hx; subst. cbn in Hy. inversion Hy; reflexivity.
+      - inversion Hx as [|x0 ? xr ? Hx0 Hxr]; subst. cbn [omap2] in Hy.
+        destruct (denote e x0) as [y0|] eqn:E0; [|discriminate]. destruct (omap2 denote l xr) as [yr|] eqn:Er; [|discriminate].
+        inversion Hy; subst ys. cbn [map combine fst snd]. f_equal; [now apply HM|now apply IH].
+    Qed.
+    Lemma Forall2_map_r (A B C : Type) (P : A -> C -> Prop) (f : B -> C) xs : forall l,
+      Forall2 P xs (map f l) -> Forall2 (fun x e => P x (f e)) xs l.
+    Proof.
+      induction xs as [|x xs IH]; intros [|e l] H; inversion H; subst; constructor; auto.
+    Qed.
+    Lemma map_sizes_out (l : list op) : map struct_size (map (@out_struct K) l) = map (@out_size K) l.
+    Proof. now rewrite map_map. Qed.
+    Lemma map_sizes_in (l : list op) : map struct_size (map (@in_struct K) l) = map (@in_size K) l.
+    Proof. now rewrite map_map. Qed.
+
+    Lemma repr_block i b td l Ms M : wfo (Block i b td l) = true -> Forall2 repr l Ms ->
+      (match b with BRow => hstack Ms | BDiag => Some (block_diag Ms) | BCol => vstack Ms end) = Some M ->
+      repr (Block i b td l) M.
+    Proof.
+      intros W HF HM.
+      change (wfo (Block i b td l)) with
+        (negb (Nat.eqb (List.length l) 0) && Nat.eqb (List.length l) (nleaves td) &&
+         match b with BRow => all_eqb (map (@out_struct K) l) | BCol => all_eqb (map (@in_struct K) l) | BDiag => true end &&
+         allwf l) in W.
+      apply andb_true_iff in W as [W W4]. apply andb_true_iff in W as [W W3]. apply andb_true_iff in W as [W1 W2].
+      apply Nat.eqb_eq in W2.
+      assert (Hne : l <> []) by (destruct l; [discriminate|discriminate]).
+      assert (Lin : List.length (map (@in_struct K) l) = nleaves td) by now rewrite map_length.
+      assert (Lout : List.length (map (@out_struct K) l) = nleaves td) by now rewrite map_length.
+      assert (En : negb (Nat.eqb (List.length l) (nleaves td)) = false) by (rewrite W2, Nat.eqb_refl; reflexivity).
+      destruct b.
+      - (* block row: hstack *)
+        destruct l as [|e0 l']; [congruence|]. set (l := e0 :: l') in *.
+        pose proof (all_eqb_Forall _ _ W3) as Hout.
+        assert (Hm : Forall (fun e => out_size e = out_size e0) l).
+        { constructor; [reflexivity|]. clear - Hout. induction l' as [|e l IH]; [constructor|].
+          cbn [map] in Hout. inversion Hout; subst. constructor; [unfold out_size; congruence|auto]. }
+        destruct (hstack_spec (out_size e0) l Ms HF Hne Hm) as (M' & EM & (WM & RM & CM) & HMv).
+        rewrite EM in HM. inversion HM; subst M'.
+        assert (Sin : in_struct (Block i BRow td l) = build (dummy_struct) td (map (@in_struct K) l)) by reflexivity.
+        assert (Sout : out_struct (Block i BRow td l) = out_struct e0) by reflexivity.
+        split; [exact WM|]. split; [now rewrite RM; unfold out_size; rewrite Sout|].
+        split; [rewrite CM; unfold in_size at 2; rewrite Sin, struct_size_build, map_sizes_in by exact Lin; reflexivity|].
+        intros x y Hx Hy. rewrite Sin in Hx. destruct (vhas_split _ _ _ _ Lin Hx) as (xs & Sx & Hxs).
+        apply Forall2_map_r in Hxs. rewrite denote_block, En, Sx in Hy. cbn [obind] in Hy. unfold DenoteL.denote_list in Hy.
+        destruct (omap2 denote l xs) as [ys|] eqn:Eys; [|discriminate]. cbn [obind] in Hy.
+        pose proof (omap2_repr l Ms HF xs ys Hxs Eys) as Hflat.
+        rewrite (split_flat td _ _ Sx). rewrite HMv.
+        2:{ clear - Hxs. induction Hxs as [|x e xs l Hx _ IH]; cbn [map]; constructor; [exact (vhas_length _ _ Hx)|exact IH]. }
+        rewrite <- Hflat.
+        destruct ys as [|y0 yr]; [discriminate|]. cbn [Denote.vsum] in Hy.
+        destruct (fold_acc_spec _ _ _ Hy) as (_ & _ & Fy). rewrite Fy.
+        assert (Lys : Forall (fun w => List.length w = out_size e0) (map vflat (y0 :: yr))).
+        { rewrite Hflat. apply Forall_forall. intros w Hw. apply in_map_iff in Hw as ([X v] & <- & Hin). cbn [fst snd].
+          apply in_combine_l in Hin. unfold AsMatrix.matvec.
+          assert (HX : mwf X /\ m_nr X = out_size e0).
+          { clear - HF Hm Hin. revert Hm Hin. induction HF as [|e X0 l Mr (WX & RX & _) _ IH]; intros Hm Hin; [destruct Hin|].
+            inversion Hm; subst. destruct Hin as [<-|Hin]; [split; [exact WX|congruence]|now apply IH]. }
+          destruct HX as [WX RX]. rewrite mv_length by exact WX. exact RX. }
+        cbn [map] in Lys |- *. inversion Lys; subst. rewrite (fold_left_hsum (out_size e0)) by assumption. reflexivity.
+      - (* block diagonal *)
+        inversion HM; subst M. destruct (block_diag_spec l Ms HF) as ((WM & RM & CM) & HMv).
+        assert (Sin : in_struct (Block i BDiag td l) = build (dummy_struct) td (map (@in_struct K) l)) by reflexivity.
+        assert (Sout : out_struct (Block i BDiag td l) = build (dummy_struct) td (map (@out_struct K) l)) by reflexivity.
+        split; [exact WM|].
+        split; [rewrite RM; unfold out_size at 2; rewrite Sout, struct_size_build, map_sizes_out by exact Lout; reflexivity|].
+        split; [rewrite CM; unfold in_size at 2; rewrite Sin, struct_size_build, map_sizes_in by exact Lin; reflexivity|].
+        intros x y Hx Hy. rewrite Sin in Hx. destruct (vhas_split _ _ _ _ Lin Hx) as (xs & Sx & Hxs).
+        apply Forall2_map_r in Hxs. rewrite denote_block, En, Sx in Hy. cbn [obind] in Hy. unfold DenoteL.denote_list in Hy.
+        destruct (omap2 denote l xs) as [ys|] eqn:Eys; [|discriminate]. cbn [option_map] in Hy. inversion Hy; subst y.
+        destruct (omap2_length _ _ _ _ _ Eys) as [Ly _].
+        rewrite build_flat by (transitivity (List.length l); [exact Ly|exact W2]). rewrite (split_flat td _ _ Sx). now apply HMv.
+      - (* block column: vstack *)
+        destruct l as [|e0 l']; [congruence|]. set (l := e0 :: l') in *.
+        pose proof (all_eqb_Forall _ _ W3) as Hin.
+        assert (Hsame : Forall (fun e => in_struct e = in_struct e0) l).
+        { constructor; [reflexivity|]. clear - Hin. induction l' as [|e l IH]; [constructor|].
+          cbn [map] in Hin. inversion Hin; subst. constructor; auto. }
+        assert (Hn : Forall (fun e => in_size e = in_size e0) l).
+        { eapply Forall_impl; [|exact Hsame]. cbn. intros e He. unfold in_size. now rewrite He. }
+        destruct (vstack_spec (in_size e0) l Ms HF Hne Hn) as (M' & EM & (WM & RM & CM) & HMv).
+        rewrite EM in HM. inversion HM; subst M'.
+        assert (Sin : in_struct (Block i BCol td l) = in_struct e0) by reflexivity.
+        assert (Sout : out_struct (Block i BCol td l) = build (dummy_struct) td (map (@out_struct K) l)) by reflexivity.
+        split; [exact WM|].
+        split; [rewrite RM; unfold out_size at 2; rewrite Sout, struct_size_build, map_sizes_out by exact Lout; reflexivity|].
+        split; [now rewrite CM; unfold in_size; rewrite Sin|].
+        intros x y Hx Hy. rewrite Sin in Hx. rewrite denote_block, En in Hy.
+        destruct (omapl (fun e => denote e x) l) as [ys|] eqn:Eys; [|discriminate]. cbn [option_map] in Hy. inversion Hy; subst y.
+        pose proof (omapl_length _ _ _ _ Eys) as Ly.
+        rewrite build_flat by (transitivity (List.length l); [exact Ly|exact W2]). rewrite HMv.
+        rewrite (omapl_repr l Ms x HF) with (ys := ys); [reflexivity| |exact Eys].
+        eapply Forall_impl; [|exact Hsame]. cbn. intros e He. now rewrite He.
+    Qed.
+
+    Lemma wrap_structs' i w (x : op) : in_struct (Wrap i w x : op) = out_struct x /\ out_struct (Wrap i w x : op) = in_struct x.
+    Proof. unfold in_struct, out_struct. cbn [structs]. destruct (structs x); auto. Qed.
+
+    Lemma repr_inverse i w x Mx M : w = WInverse \/ w = WQURotT -> repr x Mx -> minv Mx = Some M -> repr (Wrap i w x) M.
+    Proof.
+      intros Hw (WX & RX & CX & HX) HM. destruct (HINV _ _ HM) as (WN & RN & CN & HN).
+      destruct (wrap_structs' i w x) as [Sin Sout].
+      split; [exact WN|]. split; [unfold out_size; rewrite Sout; fold (in_size x); congruence|].
+      split; [unfold in_size at 1; rewrite Sin; fold (out_size x); congruence|].
+      intros z y1 Hz Hy. rewrite Sin in Hz. cbn [Denote.denote] in Hy.
+      destruct (HSOLVE i w x z y1 Hw Hz Hy) as [Hd Hs].
+      rewrite (HX _ _ Hs Hd). symmetry. apply HN. rewrite CX. exact (vhas_length _ _ Hs).
+    Qed.
+
+    Theorem override_repr : forall e, wfo e = true -> forall M, as_matrix e = Some M -> repr e M.
+    Proof.
+      induction e as [i c si so p|i w e IH|i s|i k s|i l IH|i l IH|i b td l IH] using op_ind'; intros W M H.
+      - cbn [AsMatrix.as_matrix] in H.
+        destruct c; try (now apply repr_generic); try (now apply HOV); inversion H; subst M; apply HRESH; auto.
+      - cbn [AsMatrix.as_matrix] in H. cbn [Wf.wfo] in W. apply andb_true_iff in W as [We Wsq].
+        destruct w; try (apply repr_generic; [cbn [Wf.wfo]; rewrite We, Wsq; reflexivity|exact H]); try (now apply HOV).
+        + destruct (as_matrix e) as [Mx|] eqn:Ex; [|discriminate]. cbn [obind] in H.
+          eapply repr_inverse; [left; reflexivity|apply IH; [exact We|reflexivity]|exact H].
+        + destruct (as_matrix e) as [Mx|] eqn:Ex; [|discriminate]. cbn [obind] in H.
+          eapply repr_inverse; [right; reflexivity|apply IH; [exact We|reflexivity]|exact H].
+      - cbn [AsMatrix.as_matrix] in H. inversion H; subst M. apply repr_ident.
+      - cbn [AsMatrix.as_matrix] in H. inversion H; subst M. apply repr_homoth.
+      - now apply repr_generic.
+      - rewrite as_matrix_add in H. destruct (omapl as_matrix l) as [Ms|] eqn:EMs; [|discriminate]. cbn [obind] in H.
+        apply (repr_sum i l Ms M W); [|exact H].
+        change (wfo (AddOp i l)) with (negb (Nat.eqb (List.length l) 0) && sum_ok l && allwf l) in W.
+        apply andb_true_iff in W as [_ W3]. apply allwf_Forall in W3.
+        apply omapl_Forall2; [|exact EMs]. clear - IH W3. induction IH as [|e r He _ IHr]; [constructor|].
+        inversion W3; subst. constructor; auto.
+      - rewrite as_matrix_block in H. destruct (omapl as_matrix l) as [Ms|] eqn:EMs; [|discriminate]. cbn [obind] in H.
+        apply (repr_block i b td l Ms M W); [|exact H].
+        change (wfo (Block i b td l)) with
+          (negb (Nat.eqb (List.length l) 0) && Nat.eqb (List.length l) (nleaves td) &&
+           match b with BRow => all_eqb (map (@out_struct K) l) | BCol => all_eqb (map (@in_struct K) l) | BDiag => true end &&
+           allwf l) in W.
+        apply andb_true_iff in W as [_ W3]. apply allwf_Forall in W3.
+        apply omapl_Forall2; [|exact EMs]. clear - IH W3. induction IH as [|e r He _ IHr]; [constructor|].
+        inversion W3; subst. constructor; auto.
+    Qed.
+
+    (* override_eq_generic: whenever both are defined, as_matrix() of ANY well-formed expression tree is
+       the matrix built by the generic construction *)
+    Theorem override_eq_generic_l : forall e M G, wfo e = true ->
+      as_matrix e = Some M -> as_matrix_generic e = Some G -> M = G.
+    Proof.
+      intros e M G W HM HG. rewrite LOOP in HG. destruct (generic_columns e) as [cols|] eqn:Hg; [|discriminate].
+      cbn in HG. inversion HG; subst G. apply repr_to_columns; [now apply override_repr|now apply HON|exact Hg].
+    Qed.
+  End Override.
 End AsML.
